@@ -339,9 +339,50 @@ let do_cont f line =
       note_nontrivial ("cont" ^ kind ^ e ^ args)
   | _ -> fail "format" "cont" line
 
+(* binary numerals of large numbers: the number arrives as its bit string (most significant first) *)
+let do_bignum f line =
+  match f with
+  | ["binary"; bits; dec; ts] ->
+      let bs = List.init (String.length bits) (fun i -> bits.[i] = '1') in
+      let n = n_of_bits_msb bs in
+      let t = parse_term ts in
+      if ser (binary_N n) <> ts then fail "oracle:C12:shape" "not the documented shape of the numeral" line;
+      if not (closed t) then fail "oracle:C12:closed" "" line;
+      if not (nfb t) then fail "oracle:C12:normal" "" line;
+      (match dec_binary_N t with Some v when v = n -> () | _ -> fail "oracle:C12:decode" "does not decode back to the number" line);
+      note_nontrivial ("bignum" ^ dec)
+  | _ -> fail "format" "bignum" line
+
+let split_terms s = if s = "" then [] else List.map parse_term (String.split_on_char ';' s)
+
 let do_from f line =
   match f with
   | ["bool"; b; ts] -> if ser (bool_t (b = "1")) <> ts then fail "oracle:C17:from-bool" "" line
+  | [kind; args; ts] ->
+      let xs = split_terms args in
+      let exp, model = (match kind, xs with
+        | "pair", [a; b] -> pair_t a b, into_pair a b
+        | "some", [a] -> some_t a, into_option (Some a)
+        | "none", [] -> none_t, into_option None
+        | "ok", [a] -> ok_t a, into_result (Inl a)
+        | "err", [a] -> err_t a, into_result (Inr a)
+        | "vec", xs -> pair_list xs, into_pair_list xs
+        | _ -> failwith "from") in
+      if ser model <> ts then fail "corr:convert" "model of the From conversion differs" line;
+      if ser exp <> ts then fail ("oracle:C17:from-" ^ kind) "not the normal form of the constructor application" line;
+      (* independently: the constructor constant applied to the payloads normalises to it *)
+      let ctor = (match kind with "pair" -> Some "pair_pair" | "some" -> Some "option_some" | "ok" -> Some "result_ok"
+                                | "err" -> Some "result_err" | _ -> None) in
+      (match ctor with
+       | Some c ->
+           let app = List.fold_left (fun acc x -> App (acc, x)) (gen_lookup c) xs in
+           (match normalize app 2000 200000 with
+            | Some v -> if ser v <> ts then fail ("oracle:C17:from-" ^ kind) "differs from the normal form of the constructor application" line
+            | None -> ())
+       | None -> ());
+      (if kind = "vec" then
+         if ser exp <> ts then fail "oracle:C16:conversion" "Vec conversion differs from repeated cons" line);
+      note_nontrivial ("from" ^ kind ^ args)
   | _ -> fail "format" "from" line
 
 let dispatch (f : string list) (line : string) =
@@ -353,6 +394,7 @@ let dispatch (f : string list) (line : string) =
   | "const" :: r -> bump counts "const"; do_const r line
   | "cont" :: r -> bump counts "cont"; do_cont r line
   | "from" :: r -> bump counts "from"; do_from r line
+  | "bignum" :: r -> bump counts "bignum"; do_bignum r line
   | "display-shift" :: r -> bump counts "display-shift"; do_display_shift r line
   | "parse" :: r -> bump counts "parse"; do_parse r line
   | "same" :: r -> bump counts "same"; do_same r line
